@@ -59,7 +59,8 @@ def akai_wf_chains(words):
 
 
 def akai_runs(words):
-    """maximal runs of consecutive reserved-flag sectors that are terminated by a non-reserved sector."""
+    """maximal runs of consecutive reserved-flag sectors: terminated by a non-reserved sector, or ending with the
+    table's last sector (the property names no terminator; the pinned decoder cut such a run to its first sector: D18)."""
     n = len(words)
     runs, s = [], 0
     while s < n:
@@ -67,8 +68,7 @@ def akai_runs(words):
             e = s
             while e + 1 < n and words[e + 1] in (R1, R2):
                 e += 1
-            if e + 1 < n:
-                runs.append(list(range(s, e + 1)))
+            runs.append(list(range(s, e + 1)))
             s = e + 1
         else:
             s += 1
@@ -170,6 +170,49 @@ def check_oracle(rep: Report, kind: str, words, res: str):
                 rep.feat("wf_chains_head_not_lowest")
 
 
+_MEDIUM = {}
+
+
+def stream_over(rep: Report, rng, kind: str, size: int, chain, tag: str):
+    """the second half of the property: a byte stream over the resolved list yields the concatenation of those
+    sectors (S125). The medium's content is a function of the offset; sectors are 16 bytes so that one read spans many."""
+    import io
+
+    from smpl_extract.util.fat import FileStream
+
+    L = 16
+    if size not in _MEDIUM:
+        _MEDIUM[size] = b"".join((i * 2654435761 & 0xFFFFFFFF).to_bytes(4, "little") for i in range(size * L // 4))
+    medium = _MEDIUM[size]
+    want = b"".join(medium[c * L:(c + 1) * L] for c in chain)
+    fs = FileStream(io.BytesIO(medium), L, list(chain))
+    detail = {"kind": kind, "table": tag, "chain_head": list(chain[:8]), "chain_len": len(chain)}
+    try:
+        with impl.watchdog(10):
+            fs.seek(0, 0)  # (the default whence of these streams is SEEK_CUR)
+            whole = fs.read(len(want))
+            fs.seek(0, 0)
+            parts = []
+            while True:
+                b_ = fs.read(rng.choice([1, 7, L, L + 1, 3 * L, 3 * L + 5, 10 * L]))
+                if not b_:
+                    break
+                parts.append(b_)
+            a0 = rng.randrange(max(1, len(want)))
+            fs.seek(a0, 0)
+            win = fs.read(5 * L + 3)
+    except BaseException as e:  # noqa
+        if isinstance(e, (KeyboardInterrupt, SystemExit)):
+            raise
+        rep.findings.append(Finding(f"{kind}-chain-stream-raises", dict(detail, error=impl.exc_name(e))))
+        return
+    rep.feat("chain_streams_read")
+    if len(chain) >= 3 and any(b - a != 1 for a, b in zip(chain, chain[1:])):
+        rep.feat("chain_streams_fragmented_3plus")
+    if whole != want or b"".join(parts) != want or win != want[a0:a0 + 5 * L + 3]:
+        rep.findings.append(Finding(f"{kind}-chain-stream-content", dict(detail, whole_ok=whole == want, chunks_ok=b"".join(parts) == want)))
+
+
 def random_full_table(rng, kind, n):
     """real-size table with chains in random order + injected cycles / cross links / merges / runs off the end."""
     words = [0] * n
@@ -256,7 +299,7 @@ def run(ctx, rep: Report, deep: bool = False):
         "exhaustive: every raw AKAI SAT of 5 sectors over {free,EOF,reserved x2, each link, out-of-range} (59049 tables; quick: a seed-rotated 1/6 stripe) "
         "and every Roland FAT of 12 entries with 1 usable..., decode + get_path from every start; every link table of 4 entries x size x start for get_path; "
         "random real-size tables (11386 / 65536 words) with injected cycles, self-links, cross-links, merges, runs off the end; targeted real-size well-formed tables (chains of 400 and 3000 entries written backwards, a full disc of 8-entry files with one written backwards); "
-        "distinct = distinct op line; non-trivial = table with at least one link word"
+        "a FileStream over every resolved well-formed chain (16-byte sectors over a medium whose content is a function of the offset): one read of the whole, random chunk sizes, a seek + window, all equal to the concatenated sectors; distinct = distinct op line; non-trivial = table with at least one link word"
     )
     cases = []
     HANG_BUDGET = 8
@@ -344,6 +387,8 @@ def run(ctx, rep: Report, deep: bool = False):
                         klass = f"{kind}-wf-chain-misresolved" + ("" if c[0] == min(c) else "-head-not-lowest")
                         rep.findings.append(Finding(klass, {"kind": kind, "size": size, "chain": c, "got": str(p)[:200], "words_nonzero": {i: w for i, w in enumerate(words) if w}}))
                     rep.feat("wf_chains_checked")
+                    if p == c:
+                        stream_over(rep, rng, kind, size, c, f"random-{mode}")
                     if c[0] != min(c):
                         rep.feat("wf_chains_head_not_lowest")
                 for s0 in rng.sample(range(size), 5) + [w for w in words if 0 < w < size][:5]:
@@ -369,6 +414,8 @@ def run(ctx, rep: Report, deep: bool = False):
                     p = fat.get_path(c[0])
             except BaseException as e:  # noqa
                 p = "err " + impl.exc_name(e)
+            if p == c and len(c) <= 4000:
+                stream_over(rep, rng, kind, len(words), c, tag)
             if p != c:
                 rep.findings.append(Finding(f"{kind}-wf-chain-misresolved-{tag}", {"kind": kind, "table": tag, "chain_head": c[:6], "chain_len": len(c), "got": str(p)[:200]}))
                 break
@@ -377,7 +424,7 @@ def run(ctx, rep: Report, deep: bool = False):
     if ctx.model_available:
         compare_family(rep, "fat", cases, nontrivial=lambda c: True, exhaustive=True)
     rep.exhaustive = not ctx.quick
-    rep.required_features = ["akai_small_tables", "roland_small_tables", "wf_chains_checked", "wf_chains_head_not_lowest", "getpath_cases", "targeted_full_tables"]
+    rep.required_features = ["akai_small_tables", "roland_small_tables", "wf_chains_checked", "wf_chains_head_not_lowest", "getpath_cases", "targeted_full_tables", "chain_streams_read", "chain_streams_fragmented_3plus"]
 
 
 def search(ctx, rep: Report):
